@@ -715,13 +715,13 @@ pub trait QueryBuilder:
         if i > 0 {
             write!(sql, " {oper} ").unwrap();
         }
-        let both_binary = match simple_expr {
-            SimpleExpr::Binary(_, _, right) => {
-                matches!(right.as_ref(), SimpleExpr::Binary(_, _, _))
-            }
-            _ => false,
+        // A member of a longer chain keeps its parentheses unless it binds tighter than AND / OR.
+        let chain_oper = match log_chain_oper {
+            LogicalChainOper::And(_) => Oper::BinOper(BinOper::And),
+            LogicalChainOper::Or(_) => Oper::BinOper(BinOper::Or),
         };
-        let need_parentheses = length > 1 && both_binary;
+        let need_parentheses =
+            length > 1 && !self.inner_expr_well_known_greater_precedence(simple_expr, &chain_oper);
         if need_parentheses {
             write!(sql, "(").unwrap();
         }
